@@ -164,6 +164,19 @@ func genC01Scenario(seed int64, idx int) c01Scenario {
 func runC01Scenario(sc c01Scenario, idx int, res *lib.Result) {
 	dir := lib.ScratchDir(fmt.Sprintf("c01s%d", idx))
 	defer os.RemoveAll(dir)
+	if sc.kind == "lua-mutant" || sc.kind == "lua-soup" {
+		// every prefix of every Lua file through the real parser (the text as it is while being typed): an
+		// input cut inside a string, an escape, a long bracket or a numeral must give errors, not a crash
+		for name, src := range sc.files {
+			if !strings.HasSuffix(name, ".lua") {
+				continue
+			}
+			for i := 0; i <= len(src) && i <= 1500; i++ {
+				lib.Breadcrumb(fmt.Sprintf("C01 scenario %d (%s): the real parser on the first %d bytes of %s:\n%s", idx, sc.kind, i, name, src[:i]))
+				lib.ParseDump([]byte(src[:i]))
+			}
+		}
+	}
 	lib.WriteWorkspace(dir, sc.files)
 	opts := lib.AllChecksOptions()
 	sess, err := lib.StartSession(dir, opts)
@@ -325,7 +338,7 @@ func runC01(res *lib.Result, tier string, seed int64, args []string) error {
 	if tier == "thorough" {
 		n, batch = 2000, 40
 	}
-	res.Rule = "scenarios run against the real server in child processes (a crash kills only the child; the parent records the scenario that was running and goes on): token soup and raw bytes, mutated and truncated programs, annotation soup with enum blocks, cyclic class / alias worlds with indexed access, random luahelper.json files (regex metacharacters, invalid JSON, odd separators), partial unsaved edits, deep nesting (50-1500 levels), file events on malformed files; in every scenario hover, definition, references, completion, signatureHelp, documentHighlight and rename are sent at 3-5 columns of each of the first 14 lines, plus documentSymbol, documentColor and workspace/symbol; a request that does not answer within 15 s is a hang; non-trivial = every scenario; distinct by scenario"
+	res.Rule = "scenarios run against the real server in child processes (a crash kills only the child; the parent records the scenario that was running and goes on): token soup and raw bytes, mutated and truncated programs (and EVERY prefix of those files through the real parser), annotation soup with enum blocks, cyclic class / alias worlds with indexed access, random luahelper.json files (regex metacharacters, invalid JSON, odd separators), partial unsaved edits, deep nesting (50-1500 levels), file events on malformed files; in every scenario hover, definition, references, completion, signatureHelp, documentHighlight and rename are sent at 3-5 columns of each of the first 14 lines, plus documentSymbol, documentColor and workspace/symbol; a request that does not answer within 15 s is a hang; non-trivial = every scenario; distinct by scenario"
 	work := lib.ScratchDir("c01")
 	defer os.RemoveAll(work)
 	kinds := map[string]int{}
